@@ -56,14 +56,14 @@ type C05Case struct {
 }
 
 type C05Obs struct {
-	Value any    `json:"-"`
+	Value     any    `json:"-"`
 	ValueText string `json:"value"`
-	Types string `json:"go_types"`
-	Found bool   `json:"found"`
-	Err   int    `json:"err"`
-	ErrS  string `json:"err_text,omitempty"`
-	Valid int    `json:"valid"`
-	VErrS string `json:"valid_err,omitempty"`
+	Types     string `json:"go_types"`
+	Found     bool   `json:"found"`
+	Err       int    `json:"err"`
+	ErrS      string `json:"err_text,omitempty"`
+	Valid     int    `json:"valid"`
+	VErrS     string `json:"valid_err,omitempty"`
 }
 
 func (c *C05Case) effStyle() string {
